@@ -12,7 +12,7 @@ LEVEL = "exploration"
 SHARDS = {"quick": 16, "thorough": 16}
 RULE = (
     "(A) MemoryCache driven directly: breadth-first exploration to closure of the observable state "
-    "(LRU order, per-entry size/has-value, usage counter) under put value {tiny, third, half, exactly fitting, oversize}, "
+    "(LRU order, per-entry size/has-value, usage counter) under put value {tiny, third, half, exactly fitting, oversize} (str values, and - in separate configurations - weak-referenceable numpy arrays), "
     "put memento only, read, is-memoized, get-mementos, forget call/function/everything on 2-3 keys in 2 functions, "
     "for several budgets; every transition is executed on a fresh cache by replaying its shortest path; invariants: "
     "usage == sum of resident sizes <= budget, no oversize resident, LRU queue == resident keys without duplicates, "
@@ -43,7 +43,7 @@ MANIFEST = {
 # ------------------------------------------------------------------------------------------
 
 class CacheRig:
-    def __init__(self, budget_mb, keys):
+    def __init__(self, budget_mb, keys, kind="str"):
         from twosigma.memento.storage_base import MemoryCache
         self.MemoryCache = MemoryCache
         self.budget_mb = budget_mb
@@ -53,9 +53,18 @@ class CacheRig:
         self.frefs = refs
         self.budget = budget_mb * 1024 * 1024
         b = int(self.budget)
-        ov = storegen.STR_OVERHEAD
+        # values are str (not weak-referenceable) or numpy int8 arrays (weak-referenceable: the cache also keeps a weak
+        # reference to them, a second way to serve a read); element counts are chosen so that sys.getsizeof hits the class
+        self.kind = kind
+        ov = sys.getsizeof(self.make(0, 0))
         self.sizes = {"tiny": 1, "third": max(b // 3 - ov, 2), "half": max(b // 2 - ov, 3),
                       "fit": b - ov, "over": b - ov + 1}
+
+    def make(self, i, n):
+        if self.kind == "nd":
+            import numpy as np
+            return np.full(n, i % 10, dtype="int8")
+        return ("%d" % (i % 10)) * n
 
     def ops(self):
         out = []
@@ -92,7 +101,7 @@ class CacheRig:
                     ck = self.cache_key(i)
                     rwa = self.rwa[self.keys[i]]
                     if name == "put":
-                        val = ("%d" % (i % 10)) * self.sizes[op[2]]
+                        val = self.make(i, self.sizes[op[2]])
                         keep.append(val)
                         mem = storeops.make_memento(rwa, val)
                         cache.put(mem, val, has_result=True)
@@ -132,7 +141,7 @@ class CacheRig:
                     resident_val = ck in cache.cache and cache.cache[ck].has_value
                     try:
                         got = cache.read_result(mem)
-                        if ck in last_put and got is not last_put[ck] and got != last_put[ck]:
+                        if ck in last_put and got is not last_put[ck] and not values.typed_equal(got, last_put[ck]):
                             viol.append(("stale-read", "step %d %s: cache returned a value that is not the last one put" % (step, op)))
                         if ck not in last_put:
                             viol.append(("phantom-read", "step %d %s: cache returned a value for a call without cached value" % (step, op)))
@@ -223,7 +232,7 @@ def account_invariants(cache, budget):
     if total > budget:
         out.append(("over-budget", "resident entries total %s exceeds budget %.0f" % (total, budget)))
     for k, e in cache.cache.items():
-        if e.has_value and isinstance(e.value, (str, bytes)) and sys.getsizeof(e.value) > budget:
+        if e.has_value and (isinstance(e.value, (str, bytes)) or type(e.value).__name__ == "ndarray") and sys.getsizeof(e.value) > budget:
             out.append(("oversize-resident", "resident value of %d bytes exceeds budget %.0f" % (sys.getsizeof(e.value), budget)))
     lru = list(cache.lru_deque)
     if len(set(lru)) != len(lru):
@@ -236,11 +245,15 @@ def account_invariants(cache, budget):
 
 
 CONFIGS_A = [
-    # (budget_mb, keys)
+    # (budget_mb, keys[, value kind])
     (0.001, (("f#1", 0), ("f#1", 1), ("f2#1", 0))),
     (0.001, (("f#1", 0), ("f#10", 0))),
     (0.0005, (("f#1", 0), ("f#1", 1), ("f2#1", 0))),
     (0.002, (("f#1", 0), ("fa#10", 0), ("fab#1", 0))),
+    (0.001, (("f#1", 0), ("f#1", 1), ("f2#1", 0)), "nd"),
+    (0.002, (("f#1", 0), ("f#10", 0)), "nd"),
+    (0.003, (("f#1", 0), ("f#1", 1), ("fa#10", 0)), "nd"),
+    (0.001, (("fa#10", 0), ("fab#1", 0)), "nd"),
     (0.001, (("f#1", 0), ("f#1", 1), ("f#10", 0), ("f2#1", 1))),
     (0.0003, (("f#1", 0), ("f#10", 0), ("f2#1", 0))),
     (0.004, (("f#1", 0), ("f#1", 1), ("f#1", 2))),
@@ -249,8 +262,8 @@ CONFIGS_A = [
 
 
 def explore(cfg_index, stats, findings, deadline, max_states):
-    budget_mb, keys = CONFIGS_A[cfg_index]
-    rig = CacheRig(budget_mb, keys)
+    budget_mb, keys = CONFIGS_A[cfg_index][:2]
+    rig = CacheRig(budget_mb, keys, *CONFIGS_A[cfg_index][2:])
     ops = rig.ops()
     _, s0, _ = rig.run([])
     seen = {s0: []}
@@ -268,7 +281,7 @@ def explore(cfg_index, stats, findings, deadline, max_states):
             p2 = path + [op]
             viol, s2, info = rig.run(p2)
             transitions += 1
-            case = {"domain": "A", "budget_mb": budget_mb, "keys": [list(k) for k in keys], "path": p2}
+            case = {"domain": "A", "budget_mb": budget_mb, "keys": [list(k) for k in keys], "path": p2, "kind": rig.kind}
             out = core.Outcome()
             for sym, msg in viol:
                 out.violation(msg, symptom=sym, domain="A")
@@ -294,7 +307,7 @@ def explore(cfg_index, stats, findings, deadline, max_states):
 
 
 def replay_a(case):
-    rig = CacheRig(case["budget_mb"], tuple(tuple(k) for k in case["keys"]))
+    rig = CacheRig(case["budget_mb"], tuple(tuple(k) for k in case["keys"]), case.get("kind", "str"))
     viol, _, info = rig.run(case["path"])
     out = core.Outcome()
     for sym, msg in viol:
@@ -373,7 +386,7 @@ def replay(case, ctx):
 def run_shard(ctx):
     stats = core.Stats()
     thorough = ctx.tier == "thorough"
-    n_cfg = len(CONFIGS_A) if thorough else 4
+    n_cfg = len(CONFIGS_A) if thorough else 8
     states = transitions = 0
     n_closed = n_run = 0
     for ci in range(n_cfg):
